@@ -205,9 +205,81 @@ static void storage_safety_real() {
         }
 }
 
+// ---- code -> spec: random boxes and coordinates (incl. extremes, infinities, 1-ulp neighbours of the bounds); each axis is
+// abstracted to its ORDER relation with the box by exact comparisons, which is all clamp / backup can observe
+template <typename T> static T random_value(rng & r) {
+    switch (r.below(8)) {
+        case 0: return std::numeric_limits<T>::lowest();
+        case 1: return std::numeric_limits<T>::max();
+        case 2: if constexpr (std::is_floating_point_v<T>) return r.below(2) ? std::numeric_limits<T>::infinity() : -std::numeric_limits<T>::infinity(); else return T(0);
+        case 3: return T(r.below(5));
+        case 4: if constexpr (std::is_floating_point_v<T>) return (T)((double)r.below(1u << 20) / 1024.0 - 300.0); else if constexpr (std::is_signed_v<T>) return (T)((long)r.below(2000) - 1000); else return (T)r.below(2000);
+        default: if constexpr (std::is_floating_point_v<T>) return std::ldexp((T)((long)r.below(2000) - 1000), (int)r.below(60) - 30); else return (T)(r.next() >> (r.below(60)));
+    }
+}
+template <typename T> static T nudge(T v, rng & r) {   // v itself or a neighbour one step away
+    int k = (int)r.below(3);
+    if (k == 0) return v;
+    if constexpr (std::is_floating_point_v<T>) return std::nextafter(v, k == 1 ? std::numeric_limits<T>::infinity() : -std::numeric_limits<T>::infinity());
+    else { if (k == 1) return v == std::numeric_limits<T>::max() ? v : (T)(v + 1); return v == std::numeric_limits<T>::lowest() ? v : (T)(v - 1); }
+}
+template <typename T> static std::string relation(T x, T lo, T hi) {
+    if (x < lo) return "below";
+    if (x > hi) return "above";
+    if (lo == hi) return "lohi";
+    if (x == lo) return "lo";
+    if (x == hi) return "hi";
+    return "in";
+}
+template <typename T, std::size_t N>
+static void trace_box(rng & r, std::ofstream & out, long n, long & events) {
+    using V = cv::vector_d<T, N>;
+    using P = probe<V, cv::vector_d<float, 2>>;
+    using CI = cb::clamp<cb::identity<V>>;
+    using BK = cb::backup<P>;
+    for (long q = 0; q < n; ++q) {
+        covfie::array::array<T, N> lo, hi, x;
+        std::vector<std::string> rel; std::vector<int> deg;
+        for (std::size_t i = 0; i < N; ++i) {
+            T a = random_value<T>(r), b = r.below(6) == 0 ? T(0) : random_value<T>(r);
+            if (r.below(6) == 0) b = a;
+            if (b < a) std::swap(a, b);
+            if constexpr (std::is_floating_point_v<T>) { if (std::isinf(a) && a > 0) a = std::numeric_limits<T>::max(); }
+            lo[i] = a; hi[i] = b;
+            x[i] = r.below(3) == 0 ? random_value<T>(r) : nudge<T>(r.below(2) ? a : b, r);
+            rel.push_back(relation<T>(x[i], a, b)); deg.push_back(a == b);
+        }
+        covfie::field<CI> fc(covfie::make_parameter_pack(typename CI::configuration_t{lo, hi}, std::monostate{}));
+        auto rc = typename covfie::field<CI>::view_t(fc).at(x);
+        std::vector<int> eqlo, eqhi, eqx;
+        for (std::size_t i = 0; i < N; ++i) { eqlo.push_back(rc[i] == lo[i]); eqhi.push_back(rc[i] == hi[i]); eqx.push_back(rc[i] == x[i]); }
+        covfie::array::array<float, 2> def; def[0] = -7.5f; def[1] = 123456.f;
+        covfie::field<BK> fb(covfie::make_parameter_pack(typename BK::configuration_t{lo, hi, def}, typename P::configuration_t{0}));
+        g_probe.reset();
+        auto rb = typename covfie::field<BK>::view_t(fb).at(x);
+        bool is_default = rb[0] == -7.5f && rb[1] == 123456.f;
+        bool same_coord = true; for (std::size_t i = 0; i < N; ++i) if (g_probe.queries && g_probe.last[i] != (long double)x[i]) same_coord = false;
+        out << json({{"e", "box"}, {"type", tname<T>()}, {"rel", rel}, {"deg", deg}, {"eqlo", eqlo}, {"eqhi", eqhi}, {"eqx", eqx}, {"is_default", is_default},
+                     {"queries", g_probe.queries}, {"queried_at_x", same_coord}}).dump() << "\n";
+        ++events;
+    }
+}
+
 int main(int argc, char ** argv) {
     install_terminate();
     std::string mode = argv[1];
+    if (mode == "trace") {
+        rng r(std::strtoull(argv[2], nullptr, 10));
+        long n = std::atol(argv[3]);
+        std::ofstream out(argv[4]);
+        long events = 0;
+        trace_box<int, 1>(r, out, n, events); trace_box<unsigned, 2>(r, out, n, events); trace_box<std::size_t, 3>(r, out, n, events);
+        trace_box<float, 1>(r, out, n, events); trace_box<float, 4>(r, out, n, events); trace_box<double, 2>(r, out, n, events); trace_box<double, 3>(r, out, n, events);
+        trace_box<int, 4>(r, out, n, events);
+        g_cases = events;
+        summary({{"events", events}});
+        return 0;
+    }
     if (mode == "replay") {
         for (auto & c : read_ndjson(argv[2])) {
             run_types<int>(c); run_types<unsigned>(c); run_types<std::size_t>(c); run_types<float>(c); run_types<double>(c);
